@@ -479,13 +479,14 @@ Qed.
 (* xer_check_tag_e as xer_skip_unknown sees it *)
 Inductive xct := XBoth | XUnkBoth | XOpening | XUnkOpening | XClosing | XUnkClosing | XOther.
 
-(* returns (value, new depth); the C asserts depth > 0 on entry *)
+(* returns (value, new depth); the C asserts depth > 0 on entry.  The closing tag that brings the counter to 0
+   is the closing tag of the element the skip started with, whatever it is called: answer 1 for both classes
+   (the answer 2 of the older code - "the enclosing element was closed" - is gone, fix 01 of notes/fixes/I) *)
 Definition xer_skip (t : xct) (depth : Z) : Z * Z :=
   match t with
   | XBoth | XUnkBoth => (0, depth)
   | XOpening | XUnkOpening => (0, depth + 1)
-  | XClosing => if depth - 1 =? 0 then (2, 0) else (0, depth - 1)
-  | XUnkClosing => if depth - 1 =? 0 then (1, 0) else (0, depth - 1)
+  | XClosing | XUnkClosing => if depth - 1 =? 0 then (1, 0) else (0, depth - 1)
   | XOther => (-1, depth)
   end.
 
@@ -499,8 +500,8 @@ Fixpoint xer_skip_run (evs : list xct) (depth : Z) (k : nat) : Z * Z * nat :=
   end.
 
 Theorem xer_skip_depth t depth r d : 0 < depth -> xer_skip t depth = (r, d) ->
-  (r = 0 -> 0 < d) /\ (r = 1 \/ r = 2 -> d = 0) /\ (r = -1 -> d = depth) /\
-  (r = 0 \/ r = 1 \/ r = 2 \/ r = -1).
+  (r = 0 -> 0 < d) /\ (r = 1 -> d = 0) /\ (r = -1 -> d = depth) /\
+  (r = 0 \/ r = 1 \/ r = -1).
 Proof.
   intros Hd. destruct t; cbn [xer_skip]; try (intros H; injection H as <- <-; lia).
   - destruct (depth - 1 =? 0) eqn:E; intros H; injection H as <- <-; lia.
@@ -511,13 +512,13 @@ Qed.
    no more tags than there are, and it ends with depth 0 exactly when it reports the end *)
 Theorem xer_skip_run_safe : forall evs depth k r d n, 0 < depth ->
   xer_skip_run evs depth k = (r, d, n) ->
-  (k <= n <= k + length evs)%nat /\ (r = 0 -> 0 < d) /\ (r = 1 \/ r = 2 -> d = 0).
+  (k <= n <= k + length evs)%nat /\ (r = 0 -> 0 < d) /\ (r = 1 -> d = 0) /\ (r = 0 \/ r = 1 \/ r = -1).
 Proof.
   induction evs as [|e tl IH]; intros depth k r d n Hd H; cbn [xer_skip_run] in H.
   - injection H as <- <- <-. cbn [length]. lia.
   - destruct (xer_skip e depth) as [r0 d0] eqn:E.
-    pose proof (xer_skip_depth _ _ _ _ Hd E) as (H0 & H12 & _ & _).
+    pose proof (xer_skip_depth _ _ _ _ Hd E) as (H0 & H12 & _ & Hr).
     destruct (r0 =? 0) eqn:Er.
-    + apply IH in H; [|lia]. cbn [length]. lia.
+    + apply Z.eqb_eq in Er. apply IH in H; [|lia]. cbn [length]. lia.
     + injection H as <- <- <-. cbn [length]. lia.
 Qed.
